@@ -19,6 +19,8 @@ PROP = {'drive': ['Cff'], 'modules': ['SfntV.Props.C13'],
                        'C13_privatedict_roundtrip',
                        'C13_topdict_roundtrip',
                        'C13_font_roundtrip_simple',
+                       'C13_font_roundtrip_cid',
+                       'C13_font_roundtrip',
                        'C13_width_recovered',
                        'C13_predefined_charset',
                        'C13_predefined_encoding',
@@ -29,12 +31,13 @@ PROP = {'drive': ['Cff'], 'modules': ['SfntV.Props.C13'],
  'areas': [('cff', 2000, 15000)],
  'rule': 'distinct case lines (section encoder inputs / section bytes / font descriptions); non-trivial = at least one '
          'object, glyph or operand beyond the empty structure',
- 'partial': ['C13_font_roundtrip is proved for simple fonts with the Standard, the Expert or a custom encoding '
-             '(C13_font_roundtrip_simple: readFont (writeFont f) = nfSimple f for every font in SimpleDom whose file is shorter '
-             'than 2 GiB; non-vacuity: two written files, one with a custom encoding, are read back inside Lean); for CID-keyed '
-             'fonts (several private DICTs, FDSelect, FDArray) the statement is the definition C13_font_roundtrip_full: all section '
-             'theorems it needs are proved (FDSelect, charset, private DICT, layout), the composition through readFont '
-             'for this class is evaluated only (streams cff.file.model, cff.file.read, cff.file.rt, cff.file.spec).',
+ 'partial': ['C13_font_roundtrip (InDomain f -> readFont (writeFont f) = ok (nf f), files shorter than 2 GiB) is proved for both '
+             'classes: simple fonts with the Standard, the Expert or a custom encoding (SimpleDom, normal form nfSimple) and '
+             'CID-keyed fonts with 1-256 private DICTs (CidDom, normal form nfCid: ROS, GIDToCID, FDSelect, one font matrix and '
+             'private DICT per FD). Restrictions of the domain: simple fonts have exactly one private DICT; private DICTs have no '
+             'local subroutines and there are no global subroutines (Write emits empty INDEXes); all private DICTs carry the '
+             'same default/nominal width (as in Write: one selectWidths call per font); charstrings are opaque. '
+             'Non-vacuity: three written files (simple, custom encoding, CID with two FDs) are read back inside Lean.',
              'C13_dictreal_roundtrip is proved from the nine-digit integer and decimal-point position onwards (|l| <= 280); '
              'the float64 step of encodeFloat (Log10/Pow10/Round producing the nine digits, i.e. "to nine significant digits") '
              'is not modelled; it is compared by correspondence on decimals of 1-12 digits.',
@@ -66,7 +69,10 @@ PROP = {'drive': ['Cff'], 'modules': ['SfntV.Props.C13'],
                  'widths are 16.16 fixed-point numbers, |w| <= 32767',
                  'SimpleDom (Proofs/CffFontRt.lean): one private DICT; a custom encoding vector has 256 entries, glyph ids '
                  'inside the font and contiguous, distinct glyph names (the domain of C13_encoding_roundtrip); Latin-1 byte strings, '
-                 'first glyph .notdef with SID 0, SIDs below 65536, operands in the domains of the section theorems']}
+                 'first glyph .notdef with SID 0, SIDs below 65536, operands in the domains of the section theorems',
+                 'CidDom (Proofs/CffFontRtCid.lean): ROS present, 1..256 private DICTs, one CID (0..65535, first 0) and one FD '
+                 'index (< number of private DICTs) per glyph, fewer than 65536 glyphs, Latin-1 registry/ordering, six-entry font '
+                 'matrices, operands in the domains of the section theorems']}
 
 LEVEL = {'text': 'Proof (partial): INDEX write/read round trip for every list of byte strings with minimal sufficient '
          'offSize; DICT integers of all five size classes over the whole int32 range; nibble-coded reals up to the exact '
